@@ -22,7 +22,8 @@ pub struct RecConnector {
 #[async_trait]
 impl Connector for RecConnector {
     async fn connect(self: Arc<Self>, _state: Arc<crate::GlobalState>, ctx: ContextRef) -> Result<(), Error> {
-        self.log.lock().unwrap().push(format!("connect:{}", hex(self.name.as_bytes())));
+        let id = ctx.read().await.props().id;
+        self.log.lock().unwrap().push(format!("{}#connect:{}", id, hex(self.name.as_bytes())));
         if !self.ok {
             return Err(err_msg("upstream refused"));
         }
@@ -42,14 +43,14 @@ impl Connector for RecConnector {
 pub struct RecCallback(pub Log);
 #[async_trait]
 impl ContextCallback for RecCallback {
-    async fn on_connect(&self, _ctx: &mut Context) {
-        self.0.lock().unwrap().push("on_connect".into());
+    async fn on_connect(&self, ctx: &mut Context) {
+        self.0.lock().unwrap().push(format!("{}#on_connect", ctx.props().id));
     }
-    async fn on_error(&self, _ctx: &mut Context, _e: Error) {
-        self.0.lock().unwrap().push("on_error".into());
+    async fn on_error(&self, ctx: &mut Context, _e: Error) {
+        self.0.lock().unwrap().push(format!("{}#on_error", ctx.props().id));
     }
-    async fn on_finish(&self, _ctx: &mut Context) {
-        self.0.lock().unwrap().push("on_finish".into());
+    async fn on_finish(&self, ctx: &mut Context) {
+        self.0.lock().unwrap().push(format!("{}#on_finish", ctx.props().id));
     }
 }
 
@@ -144,11 +145,18 @@ pub async fn run_one(w: &World, req: &[&str], payload: &str) -> String {
         c.set_client_stream(make_buffered_stream(st));
         c.set_callback(RecCallback(w.log.clone()));
     }
-    let start = w.log.lock().unwrap().len();
     super::super::process_request(ctx.clone(), w.state.clone()).await;
     let props = ctx.read().await.props().clone();
     let js = serde_json::to_value(&*props).unwrap();
-    let events = w.log.lock().unwrap()[start..].join(",");
+    let tag = format!("{}#", props.id);
+    let events = w
+        .log
+        .lock()
+        .unwrap()
+        .iter()
+        .filter_map(|e| e.strip_prefix(tag.as_str()).map(|x| x.to_string()))
+        .collect::<Vec<_>>()
+        .join(",");
     let conn = props.connector.clone();
     let fwd = conn
         .as_ref()
@@ -180,4 +188,154 @@ pub async fn dispatch(args: &[&str]) -> String {
         return "RULES-ERR".into();
     }
     run_one(&w, &args[3..7], args[7]).await
+}
+
+// reload_seq <conns> <steps> <listener> <source> <target> <feature>
+//   steps: `|`-separated:  S<rules spec>   set_rules
+//                          R               one probe request through process_request
+//                          I               serialise the current rules (as GET /api/rules does) and post them back
+pub async fn reload_seq(args: &[&str]) -> String {
+    let w = build_world(args[0], "-");
+    let mut out = vec![];
+    for step in args[1].split('|') {
+        if let Some(spec) = step.strip_prefix('S') {
+            let r = match rules_from_spec(spec) {
+                Ok(r) => w.state.set_rules(r).await.is_ok(),
+                Err(_) => false,
+            };
+            out.push(if r { "OK".to_string() } else { "ERR".to_string() });
+        } else if step == "I" {
+            let js = serde_json::to_string(&*w.state.rules().await).unwrap();
+            let back: Result<Vec<Arc<crate::rules::Rule>>, _> = serde_json::from_str(&js);
+            let r = match back {
+                Ok(r) => w.state.set_rules(r).await.is_ok(),
+                Err(_) => false,
+            };
+            out.push(if r { "OK".to_string() } else { "ERR".to_string() });
+        } else {
+            let t = run_one(&w, &args[2..6], "-").await;
+            // decision only: events and connector
+            let f: Vec<&str> = t.split(' ').collect();
+            out.push(format!("{}/{}", f[0], f[4]));
+        }
+    }
+    out.join("|")
+}
+
+// reload_conc <conns> <rulesA> <rulesB> <tasks> <iterations> <listener> <source> <target> <feature>
+// evaluator tasks decide the same request in a loop while one task toggles between two rule lists;
+// reports the set of distinct decisions observed
+pub async fn reload_conc(args: &[&str]) -> String {
+    let w = Arc::new(build_world(args[0], "-"));
+    let ra = args[1].to_string();
+    let rb = args[2].to_string();
+    let tasks: usize = args[3].parse().unwrap();
+    let iters: usize = args[4].parse().unwrap();
+    w.state.set_rules(rules_from_spec(&ra).unwrap()).await.unwrap();
+    let req: Vec<String> = args[5..9].iter().map(|s| s.to_string()).collect();
+    let stop = Arc::new(std::sync::atomic::AtomicBool::new(false));
+    let setter = {
+        let w = w.clone();
+        let stop = stop.clone();
+        tokio::spawn(async move {
+            let mut n = 0usize;
+            while !stop.load(std::sync::atomic::Ordering::Relaxed) {
+                let spec = if n % 2 == 0 { &rb } else { &ra };
+                w.state.set_rules(rules_from_spec(spec).unwrap()).await.unwrap();
+                n += 1;
+                tokio::task::yield_now().await;
+            }
+            n
+        })
+    };
+    let mut hs = vec![];
+    for _ in 0..tasks {
+        let w = w.clone();
+        let req = req.clone();
+        hs.push(tokio::spawn(async move {
+            let mut seen = std::collections::BTreeSet::new();
+            for _ in 0..iters {
+                let r: Vec<&str> = req.iter().map(|s| s.as_str()).collect();
+                let t = run_one(&w, &r, "-").await;
+                let f: Vec<&str> = t.split(' ').collect();
+                seen.insert(format!("{}/{}", f[0], f[4]));
+                tokio::task::yield_now().await;
+            }
+            seen
+        }));
+    }
+    let mut all = std::collections::BTreeSet::new();
+    for h in hs {
+        all.extend(h.await.unwrap());
+    }
+    stop.store(true, std::sync::atomic::Ordering::Relaxed);
+    let toggles = setter.await.unwrap();
+    format!("toggles>0={} decisions={}", toggles > 0, all.into_iter().collect::<Vec<_>>().join(";"))
+}
+
+// lb_seq <lb yaml hex> <conns> <count> <tasks> <listener> <source> <targets `,`-separated> <feature>
+// `count` requests (cycling through the targets) routed by a single filterless rule to the load balancer;
+// tasks = 1: sequential, the selected members in order; tasks > 1: concurrent, members sorted
+pub async fn lb_seq(args: &[&str]) -> String {
+    let mut w = build_world(args[1], "-");
+    let doc = String::from_utf8_lossy(&unhex(args[0])).to_string();
+    let v: serde_yaml::Value = match serde_yaml::from_str(&doc) {
+        Ok(v) => v,
+        Err(_) => return "LB-ERR".into(),
+    };
+    let mut lb = match crate::connectors::from_value(&v) {
+        Ok(c) => c,
+        Err(_) => return "LB-ERR".into(),
+    };
+    if lb.init().await.is_err() {
+        return "LB-INIT-ERR".into();
+    }
+    let name = lb.name().to_owned();
+    Arc::get_mut(&mut w.state).unwrap().connectors.insert(name.clone(), lb.into());
+    let w = Arc::new(w);
+    if w.state.connectors.get(&name).unwrap().verify(w.state.clone()).await.is_err() {
+        return "LB-VERIFY-ERR".into();
+    }
+    let spec = format!("{}:-", hex(name.as_bytes()));
+    w.state.set_rules(rules_from_spec(&spec).unwrap()).await.unwrap();
+    let count: usize = args[2].parse().unwrap();
+    let tasks: usize = args[3].parse().unwrap();
+    let targets: Vec<String> = args[6].split(',').map(|s| s.to_string()).collect();
+    let one = |w: Arc<World>, i: usize, l: String, s: String, t: String, f: String| async move {
+        let req = [l.as_str(), s.as_str(), t.as_str(), f.as_str()];
+        let tr = run_one(&w, &req, "-").await;
+        let _ = i;
+        let fl: Vec<&str> = tr.split(' ').collect();
+        // recorded connector and the connector whose connect() ran must agree
+        let rec = fl[4].trim_start_matches("conn=").to_string();
+        let ran = fl[0].trim_start_matches("ev=").split(',').find(|e| e.starts_with("connect:")).map(|e| e[8..].to_string()).unwrap_or("-".into());
+        if rec == ran { rec } else { format!("MISMATCH({}!={})", rec, ran) }
+    };
+    let mut picks = vec![];
+    if tasks <= 1 {
+        for i in 0..count {
+            picks.push(one(w.clone(), i, args[4].into(), args[5].into(), targets[i % targets.len()].clone(), args[7].into()).await);
+        }
+    } else {
+        let mut hs = vec![];
+        for t in 0..tasks {
+            let w = w.clone();
+            let (l, s, f) = (args[4].to_string(), args[5].to_string(), args[7].to_string());
+            let targets = targets.clone();
+            let n = count / tasks + if t < count % tasks { 1 } else { 0 };
+            hs.push(tokio::spawn(async move {
+                let mut v = vec![];
+                for i in 0..n {
+                    v.push(one(w.clone(), i, l.clone(), s.clone(), targets[i % targets.len()].clone(), f.clone()).await);
+                    tokio::task::yield_now().await;
+                }
+                v
+            }));
+        }
+        for h in hs {
+            picks.extend(h.await.unwrap());
+        }
+        picks.sort();
+    }
+    picks.join(",")
 }
